@@ -35,6 +35,22 @@ CLAIMED['C04'] = dict(
     technique='contract-based deductive verification: per-cell symbolic execution of the real action bodies against '
               'the state-table contract, z3/cvc5')
 
+CLAIMED['C01'] = dict(
+    text='Deductive proof for all structured values: for each of the 23 PDU / item / sub-item classes the real decode() is '
+         'executed symbolically on the bytes the real encode() produces for a symbolic valid value (followed by arbitrary '
+         'further bytes) and must return that value field by field and stop exactly at its end; total_length/item_length '
+         'equal the encoded byte count. Item lists of any length and any order of kinds are covered by inductive loop '
+         'invariants on the four decode loops (ghost remaining-list, JOIN/SUM/ALL fold combinators with engine-applied '
+         'structural induction whose pointwise premises are themselves obligations); loop-bearing item decoders are used '
+         'modularly (their round-trip contract) inside the PDU-level loop. The standard is never mentioned.',
+    ref='4/C01',
+    note=TRUST + 'struct pack/unpack as uninterpreted be_n/unbe_n with ground inverse lemmas; str encode/decode uninterpreted '
+         'with ASCII lemmas; UID() identity; values the encoder itself rejects (struct.error) are outside the domain; object '
+         'equality structural over __init__ fields; re-encoding clause is a corollary of value equality (encode is a function '
+         'of the fields)',
+    technique='contract-based deductive verification: symbolic execution of real encode/decode, loop invariants, fold '
+              'lemmas, z3/cvc5')
+
 NOT_YET = {
 }
 
